@@ -42,6 +42,14 @@
 //     dns.Msg, caches, …) is abstract: parameters of such types are dropped and
 //     an expression that reads from them (`req.Question[0].Qtype`) becomes an
 //     extra parameter `e<k>_<name>` holding its value;
+//   - a *value* of abstract type (local, result of an opaque call, parameter
+//     that is compared with nil) is modelled by what the code can observe of
+//     it: `AbsPtr` (true = non-nil) for pointers, interfaces, maps, slices, …,
+//     `Unit` otherwise; `&T{…}` of abstract type is non-nil; an assignment to a
+//     field of an abstract object (`resp.Compress = true`) is an effect and is
+//     appended to the trace as `("set resp.Compress", ["true"])`; values read
+//     from abstract objects are re-read (fresh parameters) after any opaque
+//     call or such a write;
 //   - []error literals, append on them and errors.Join are lists of optional
 //     texts and "first non-nil" (errors.Join is non-nil iff an element is);
 //   - any other call is *opaque*: its result becomes an extra parameter of the
@@ -53,7 +61,7 @@
 //     listed under "pure" are opaque values that are not traced; a call to a
 //     translated function that itself has opaque parameters is opaque too;
 //   - calls listed under "ignore" (mutex operations, logging, metrics) are
-//     dropped, and so is a range loop whose body consists of such calls only; methods listed under "identity" return their receiver;
+//     dropped; methods listed under "identity" return their receiver;
 //   - "recv_nonnil" models a pointer receiver as the struct itself (the
 //     assumption that callers never pass nil is stated where it is used);
 //   - with the spec-file option "refs": true, values of abstract type are not
@@ -287,8 +295,8 @@ func (t *translator) leanType(ty types.Type) string {
 		}
 		return ""
 	case *types.Slice:
-		if isError(u.Elem()) {
-			return "(List (Option String))"
+		if el := t.leanType(u.Elem()); el != "" {
+			return "(List " + el + ")"
 		}
 		if el := t.leanType(u.Elem()); t.refs && el != "" {
 			return "(List " + el + ")"
@@ -305,11 +313,7 @@ func (t *translator) leanType(ty types.Type) string {
 	case *types.Tuple:
 		var parts []string
 		for i := 0; i < u.Len(); i++ {
-			p := t.leanType(u.At(i).Type())
-			if p == "" {
-				p = "Unit"
-			}
-			parts = append(parts, p)
+			parts = append(parts, t.valType(u.At(i).Type()))
 		}
 		if len(parts) == 0 {
 			return "Unit"
@@ -338,6 +342,24 @@ func (t *translator) abstract(ty types.Type) bool {
 	}
 	return false
 }
+
+// valType is the Lean type of a *value* (local, parameter that is compared with
+// nil, result of an opaque call): the translated type when there is one,
+// `AbsPtr` (its nil-ness: true = non-nil) for pointers, interfaces, maps,
+// channels, functions and slices of abstract type, `Unit` for other abstract
+// values.
+func (t *translator) valType(ty types.Type) string {
+	if lt := t.leanType(ty); lt != "" {
+		return lt
+	}
+	switch ty.Underlying().(type) {
+	case *types.Pointer, *types.Interface, *types.Map, *types.Chan, *types.Signature, *types.Slice:
+		return "AbsPtr"
+	}
+	return "Unit"
+}
+
+func (t *translator) isAbstract(ty types.Type) bool { return t.leanType(ty) == "" }
 
 func sanitize(s string) string {
 	r := strings.NewReplacer(".", "_", "/", "_", "-", "_", "*", "", "(", "", ")", "", "[", "_", "]", "_", " ", "", "{", "", "}", "", "&", "", ":", "", ",", "_")
@@ -426,7 +448,9 @@ type fctx struct {
 	derefd      map[string]string
 	trace       bool
 	localFns    map[string]*ast.FuncLit
+	loop        *loopCtx
 	opaqueVals  map[string]string
+	opaqueNodes map[ast.Expr]string
 	opaqueCalls map[*ast.CallExpr]string
 	paramMut    []string // pointer parameters whose fields are assigned (returned after the receiver)
 }
@@ -627,8 +651,28 @@ func (c *fctx) expr(e ast.Expr) ex {
 	case *ast.SelectorExpr:
 		return c.selector(x)
 	case *ast.UnaryExpr:
-		if x.Op == token.AND {
-			return c.opaqueValue(e) // address of something: a fresh identity token
+		if x.Op == token.AND && c.t.refs {
+			return c.opaqueValue(e) // "refs": address of something: a fresh identity token
+		}
+		if cl, ok := x.X.(*ast.CompositeLit); ok && x.Op == token.AND && c.t.isAbstract(c.typeOf(x)) {
+			// a freshly allocated abstract object: non-nil; calls among its
+			// elements are evaluated (for the trace)
+			var xs []ex
+			for _, el := range cl.Elts {
+				v := el
+				if kv, ok := el.(*ast.KeyValueExpr); ok {
+					v = kv.Value
+				}
+				if _, isCall := v.(*ast.CallExpr); isCall {
+					xs = append(xs, c.expr(v))
+				}
+			}
+			return c.bindN(xs, func(s []string) string {
+				if len(s) == 0 {
+					return "true"
+				}
+				return "(Function.const _ true (" + strings.Join(s, ", ") + "))"
+			})
 		}
 		a := c.expr(x.X)
 		switch x.Op {
@@ -647,7 +691,7 @@ func (c *fctx) expr(e ast.Expr) ex {
 	case *ast.BasicLit:
 		fail("literal %s without constant value", x.Value)
 	case *ast.CompositeLit:
-		if sl, ok := c.typeOf(x).Underlying().(*types.Slice); ok && isError(sl.Elem()) {
+		if sl, ok := c.typeOf(x).Underlying().(*types.Slice); ok && c.t.leanType(sl.Elem()) != "" {
 			var xs []ex
 			for _, el := range x.Elts {
 				xs = append(xs, c.exprAs(el, sl.Elem()))
@@ -661,11 +705,10 @@ func (c *fctx) expr(e ast.Expr) ex {
 		return c.opaqueValue(e)
 	}
 	if ix, ok := e.(*ast.IndexExpr); ok {
-		if _, isSl := c.typeOf(ix.X).Underlying().(*types.Slice); isSl && strings.HasPrefix(c.t.leanType(c.typeOf(ix.X)), "(List") && c.t.leanType(c.typeOf(e)) != "" {
-			c.partial = true // index out of range: a run-time panic
-			r := c.bindN([]ex{c.expr(ix.X), c.expr(ix.Index)}, func(s []string) string {
-				return "(if " + s[1] + " < 0 then none else (" + s[0] + ")[(" + s[1] + ").toNat]?)"
-			})
+		if _, isSl := c.typeOf(ix.X).Underlying().(*types.Slice); isSl && c.t.leanType(c.typeOf(ix.X)) != "" && isInt(c.typeOf(ix.Index)) {
+			// out of range => panic
+			c.partial = true
+			r := c.bindN([]ex{c.expr(ix.X), c.expr(ix.Index)}, func(s []string) string { return "(goIndex? " + s[0] + " " + s[1] + ")" })
 			if r.partial {
 				return ex{code: "(Option.join " + r.code + ")", partial: true}
 			}
@@ -688,13 +731,24 @@ func (c *fctx) opaqueValue(e ast.Expr) ex {
 	if c.opaqueVals == nil {
 		c.opaqueVals = map[string]string{}
 	}
+	if c.opaqueNodes == nil {
+		c.opaqueNodes = map[ast.Expr]string{}
+	}
+	// the same source expression in the two copies of a duplicated
+	// continuation is one parameter (only one copy runs)
+	if n, ok := c.opaqueNodes[e]; ok {
+		c.opaqueVals[key] = n
+		return ex{code: n}
+	}
 	if n, ok := c.opaqueVals[key]; ok {
+		c.opaqueNodes[e] = n
 		return ex{code: n}
 	}
 	c.nOpaque++
 	name := fmt.Sprintf("e%d_%s", c.nOpaque, sanitize(lastName(key)))
 	c.opaque = append(c.opaque, fmt.Sprintf("(%s : %s)", name, lt))
 	c.opaqueVals[key] = name
+	c.opaqueNodes[e] = name
 	return ex{code: name}
 }
 
@@ -763,6 +817,13 @@ func (c *fctx) binary(x *ast.BinaryExpr) ex {
 		if id, ok := x.Y.(*ast.Ident); ok && id.Name == "nil" && c.p.info.Uses[id] == types.Universe.Lookup("nil") {
 			if c.isRecvVal(x.X) {
 				return ex{code: fmt.Sprint(x.Op == token.NEQ)}
+			}
+			if c.t.valType(tx) == "AbsPtr" {
+				a := c.expr(x.X)
+				if x.Op == token.NEQ {
+					return a
+				}
+				return c.bindN([]ex{a}, func(s []string) string { return "(!" + s[0] + ")" })
 			}
 			a := c.expr(x.X)
 			m := "isNone"
@@ -900,7 +961,7 @@ func (c *fctx) call(x *ast.CallExpr) ex {
 			switch id.Name {
 			case "append":
 				sl, ok := c.typeOf(x.Args[0]).Underlying().(*types.Slice)
-				if !ok || !isError(sl.Elem()) || x.Ellipsis.IsValid() {
+				if !ok || c.t.leanType(sl.Elem()) == "" || x.Ellipsis.IsValid() {
 					fail("append %s", c.show(x))
 				}
 				xs := []ex{c.expr(x.Args[0])}
@@ -909,8 +970,14 @@ func (c *fctx) call(x *ast.CallExpr) ex {
 				}
 				return c.bindN(xs, func(s []string) string { return "(" + s[0] + " ++ [" + strings.Join(s[1:], ", ") + "])" })
 			case "len":
-				if strings.HasPrefix(c.t.leanType(c.typeOf(x.Args[0])), "(List") {
-					return c.bindN([]ex{c.expr(x.Args[0])}, func(s []string) string { return "(Int.ofNat (" + s[0] + ").length)" })
+				at := c.typeOf(x.Args[0])
+				if _, ok := at.Underlying().(*types.Slice); ok && c.t.leanType(at) != "" {
+					a := c.expr(x.Args[0])
+					return c.bindN([]ex{a}, func(s []string) string { return "(" + s[0] + ".length : Int)" })
+				}
+				if isString(at) {
+					a := c.expr(x.Args[0])
+					return c.bindN([]ex{a}, func(s []string) string { return "(" + s[0] + ".utf8ByteSize : Int)" })
 				}
 				return c.opaqueValue(x)
 			case "min", "max":
@@ -986,6 +1053,14 @@ func (c *fctx) call(x *ast.CallExpr) ex {
 			return "(if " + fmt.Sprintf(test, s[1]) + " then some (" + s[0] + " ++ \": not positive\") else none)"
 		})
 	}
+	if fn, ok := map[string]string{"strings.TrimPrefix": "goTrimPrefix", "strings.TrimSuffix": "goTrimSuffix", "strings.HasPrefix": "goHasPrefix",
+		"strings.HasSuffix": "goHasSuffix", "strings.SplitN": "goSplitN", "strings.Split": "goSplit", "strings.Contains": "goContains"}[key]; ok {
+		var xs []ex
+		for _, a := range x.Args {
+			xs = append(xs, c.expr(a))
+		}
+		return c.bindN(xs, func(s []string) string { return "(" + fn + " " + strings.Join(s, " ") + ")" })
+	}
 	// translated functions
 	if fo := c.t.lookup(key); fo != nil && len(fo.paramsOpaque()) == 0 && !fo.spec.Trace {
 		var xs []ex
@@ -1015,10 +1090,8 @@ func (c *fctx) call(x *ast.CallExpr) ex {
 		}
 	}
 	// opaque call
-	lt := c.t.leanType(c.typeOf(x))
-	if lt == "" {
-		fail("opaque call %s returns untranslatable type %s", c.show(x), c.typeOf(x))
-	}
+	lt := c.t.valType(c.typeOf(x))
+	c.opaqueVals = nil // an external call may change what abstract objects hold
 	if c.opaqueCalls == nil {
 		c.opaqueCalls = map[*ast.CallExpr]string{}
 	}
@@ -1054,6 +1127,9 @@ func (c *fctx) traceArg(a ast.Expr) (code string) {
 			}
 		}
 	}()
+	if id, ok := a.(*ast.Ident); ok && id.Name == "_" {
+		return code
+	}
 	tv, ok := c.p.info.Types[a]
 	if !ok || tv.Type == nil {
 		return code
@@ -1098,6 +1174,9 @@ func (c *fctx) declared(name string) bool {
 }
 
 func lastName(s string) string {
+	if i := strings.Index(s, "["); i > 0 && strings.HasSuffix(s, "]") && !strings.Contains(s[i:], ".") || i > 0 && strings.HasSuffix(s, "]") && strings.HasPrefix(s[i:], "[*") {
+		s = s[:i] // generic instantiation f[T]
+	}
 	if i := strings.LastIndex(s, "."); i >= 0 {
 		return s[i+1:]
 	}
@@ -1198,10 +1277,145 @@ func (c *fctx) ret(vals []string) string {
 	default:
 		r = "(" + strings.Join(parts, ", ") + ")"
 	}
+	if c.loop != nil {
+		return "«step»(.ret " + r + ")"
+	}
 	return "«ret»" + r
 }
 
+// loopCtx is the innermost enclosing range loop: its carried variables.
+type loopCtx struct {
+	state []string
+}
+
+func (c *fctx) stateTuple(vars []string) string {
+	switch len(vars) {
+	case 0:
+		return "()"
+	case 1:
+		return vars[0]
+	}
+	return "(" + strings.Join(vars, ", ") + ")"
+}
+
+// rangeLoop translates `for i, x := range xs { body }` over a translatable
+// slice: the variables declared outside the loop and assigned inside it (plus
+// the call trace) are the loop state; the body maps a state and an element to
+// `Step.next state'` (also for continue), `Step.brk state'` or `Step.ret r`
+// (a return of the enclosing function).
+func (c *fctx) rangeLoop(x *ast.RangeStmt, rest []ast.Stmt) string {
+	if x.Tok != token.DEFINE && (x.Key != nil || x.Value != nil) {
+		fail("range with assignment to existing variables")
+	}
+	sl, ok := c.typeOf(x.X).Underlying().(*types.Slice)
+	if !ok || c.t.leanType(c.typeOf(x.X)) == "" {
+		fail("range over %s", c.typeOf(x.X))
+	}
+	elT := c.t.leanType(sl.Elem())
+	// carried variables
+	var vars, varTypes []string
+	seen := map[string]bool{}
+	add := func(id *ast.Ident) {
+		obj := c.p.info.Uses[id]
+		if obj == nil || seen[id.Name] {
+			return
+		}
+		if obj.Pos() >= x.Pos() && obj.Pos() <= x.End() {
+			return // declared inside the loop
+		}
+		lt := c.t.leanType(obj.Type())
+		if pt, isPtr := obj.Type().(*types.Pointer); isPtr && c.recvVal && id.Name == c.recv {
+			lt = c.t.leanType(pt.Elem())
+		}
+		if lt == "" {
+			fail("loop assigns %s of untranslatable type", id.Name)
+		}
+		seen[id.Name] = true
+		vars = append(vars, leanIdent(id.Name))
+		varTypes = append(varTypes, lt)
+	}
+	ast.Inspect(x.Body, func(n ast.Node) bool {
+		var targets []ast.Expr
+		switch s := n.(type) {
+		case *ast.AssignStmt:
+			if s.Tok != token.DEFINE {
+				targets = s.Lhs
+			} else {
+				// := may also assign existing variables
+				for _, l := range s.Lhs {
+					if id, ok := l.(*ast.Ident); ok && c.p.info.Defs[id] == nil {
+						targets = append(targets, l)
+					}
+				}
+			}
+		case *ast.IncDecStmt:
+			targets = []ast.Expr{s.X}
+		case *ast.FuncLit:
+			return false
+		}
+		for _, l := range targets {
+			switch t := l.(type) {
+			case *ast.Ident:
+				if t.Name != "_" {
+					add(t)
+				}
+			case *ast.SelectorExpr:
+				if id, ok := t.X.(*ast.Ident); ok {
+					add(id)
+				}
+			}
+		}
+		return true
+	})
+	if c.trace {
+		vars = append(vars, "tr")
+		varTypes = append(varTypes, "(List (String × List String))")
+	}
+	sigma := "Unit"
+	if len(varTypes) == 1 {
+		sigma = varTypes[0]
+	} else if len(varTypes) > 1 {
+		sigma = "(" + strings.Join(varTypes, " × ") + ")"
+	}
+	key, val := "_", "_"
+	if id, ok := x.Key.(*ast.Ident); ok && x.Key != nil {
+		key = leanIdent(id.Name)
+	}
+	if id, ok := x.Value.(*ast.Ident); ok && x.Value != nil {
+		val = leanIdent(id.Name)
+	}
+	coll := c.expr(x.X)
+	return c.withEx(coll, func(collCode string) string {
+		savedLoop, savedPartial := c.loop, c.partial
+		c.loop, c.partial = &loopCtx{state: vars}, false
+		body := c.stmts(x.Body.List)
+		bodyPartial := c.partial
+		c.loop, c.partial = savedLoop, savedPartial || bodyPartial
+		rho := "«rho»"
+		fn, wrap := "goRange", ""
+		if bodyPartial {
+			fn, wrap = "goRange?", "some "
+		}
+		body = strings.ReplaceAll(body, "«step»", wrap)
+		destr := ""
+		if len(vars) > 1 {
+			destr = "let " + c.stateTuple(vars) + " := st\n"
+		} else if len(vars) == 1 {
+			destr = "let " + vars[0] + " := st\n"
+		}
+		loop := fmt.Sprintf("%s (σ := %s) (ρ := %s) %s %s fun st (%s : Int) (%s : %s) =>\n%s", fn, sigma, rho, collCode, c.stateTuple(vars), key, val, elT, indent(destr+body))
+		after := c.stmts(rest)
+		if bodyPartial {
+			return fmt.Sprintf("match %s with\n| none => none\n| some (.inr r) => «ret»r\n| some (.inl st) =>\n%s", loop, indent(destr+after))
+		}
+		return fmt.Sprintf("match %s with\n| .inr r => «ret»r\n| .inl st =>\n%s", loop, indent(destr+after))
+	})
+}
+
 func (c *fctx) stmts(list []ast.Stmt) string {
+	if len(list) == 0 && c.loop != nil {
+		return "«step»(.next " + c.stateTuple(c.loop.state) + ")"
+	}
 	if len(list) == 0 {
 		// fell off the end
 		if len(c.results) == 0 || c.named {
@@ -1263,6 +1477,18 @@ func (c *fctx) stmts(list []ast.Stmt) string {
 		})
 	case *ast.SwitchStmt:
 		return c.stmts(append(c.desugarSwitch(x), rest...))
+	case *ast.RangeStmt:
+		return c.rangeLoop(x, rest)
+	case *ast.BranchStmt:
+		if c.loop != nil && x.Label == nil {
+			switch x.Tok {
+			case token.CONTINUE:
+				return "«step»(.next " + c.stateTuple(c.loop.state) + ")"
+			case token.BREAK:
+				return "«step»(.brk " + c.stateTuple(c.loop.state) + ")"
+			}
+		}
+		fail("branch statement %s", x.Tok)
 	case *ast.BlockStmt:
 		return c.stmts(append(append([]ast.Stmt{}, x.List...), rest...))
 	case *ast.EmptyStmt:
@@ -1283,7 +1509,7 @@ func (c *fctx) stmts(list []ast.Stmt) string {
 					continue // variable of untranslatable type (func value …): only passed around
 				}
 				z := c.zero(c.p.info.Defs[n].Type())
-				out += fmt.Sprintf("let %s : %s := %s\n", leanIdent(n.Name), c.t.leanType(c.p.info.Defs[n].Type()), z)
+				out += fmt.Sprintf("let %s : %s := %s\n", leanIdent(n.Name), c.t.valType(c.p.info.Defs[n].Type()), z)
 			}
 		}
 		return out + c.stmts(rest)
@@ -1314,18 +1540,6 @@ func (c *fctx) stmts(list []ast.Stmt) string {
 			fail("call statement %s (not ignored, no trace)", c.show(x))
 		}
 		return "let tr := tr ++ [" + c.traceEntry(call) + "]\n" + c.stmts(rest)
-	case *ast.RangeStmt:
-		// a loop that only makes ignored calls (metrics, logging) has no translated effect
-		for _, b := range x.Body.List {
-			es, _ := b.(*ast.ExprStmt)
-			if es == nil {
-				fail("statement %s (a loop is translated only when its body consists of ignored calls)", c.show(s))
-			}
-			if call, ok := es.X.(*ast.CallExpr); !ok || !c.matches(c.spec.Ignore, call) {
-				fail("statement %s (a loop is translated only when its body consists of ignored calls)", c.show(s))
-			}
-		}
-		return c.stmts(rest)
 	case *ast.DeferStmt:
 		if c.matches(c.spec.Ignore, x.Call) {
 			return c.stmts(rest)
@@ -1373,6 +1587,12 @@ func (c *fctx) zero(t types.Type) string {
 		return "none"
 	case strings.HasPrefix(lt, "(List"):
 		return "[]"
+	}
+	switch c.t.valType(t) {
+	case "AbsPtr":
+		return "false"
+	case "Unit":
+		return "()"
 	}
 	fail("zero value of %s", t)
 	return ""
@@ -1431,6 +1651,28 @@ func (c *fctx) desugarSwitch(x *ast.SwitchStmt) []ast.Stmt {
 }
 
 func (c *fctx) assignStmt(x *ast.AssignStmt, rest []ast.Stmt) string {
+	if len(x.Lhs) == 1 && len(x.Rhs) == 1 && c.abstractTarget(x.Lhs[0]) {
+		op := ""
+		if x.Tok != token.ASSIGN {
+			op = " " + x.Tok.String()
+		}
+		isBuiltin := func(call *ast.CallExpr) bool {
+			id, ok := call.Fun.(*ast.Ident)
+			if !ok {
+				return false
+			}
+			_, b := c.p.info.Uses[id].(*types.Builtin)
+			return b
+		}
+		if call, ok := x.Rhs[0].(*ast.CallExpr); ok && !isBuiltin(call) {
+			// evaluate the call first (for the trace), then record the write
+			e := c.expr(call)
+			return c.withEx(e, func(string) string {
+				return c.abstractWrite(x.Lhs[0], op, &ast.Ident{Name: "_"}, func() string { return c.stmts(rest) })
+			})
+		}
+		return c.abstractWrite(x.Lhs[0], op, x.Rhs[0], func() string { return c.stmts(rest) })
+	}
 	if x.Tok != token.ASSIGN && x.Tok != token.DEFINE {
 		// op=
 		if len(x.Lhs) != 1 {
@@ -1518,6 +1760,33 @@ func (c *fctx) assign(lhs ast.Expr, e ex, rest []ast.Stmt, _ ast.Expr) string {
 }
 
 // assignCode emits `lhs := code` followed by k().
+// abstractTarget reports whether lhs is a field (path) of an abstract object.
+func (c *fctx) abstractTarget(lhs ast.Expr) bool {
+	se, ok := lhs.(*ast.SelectorExpr)
+	if !ok {
+		return false
+	}
+	if id, ok := se.X.(*ast.Ident); ok {
+		if _, isPkg := c.p.info.Uses[id].(*types.PkgName); isPkg {
+			return false
+		}
+	}
+	return c.t.isAbstract(c.typeOf(se.X)) || c.abstractTarget(se.X)
+}
+
+// abstractWrite records an assignment to a field of an abstract object in the trace.
+func (c *fctx) abstractWrite(lhs ast.Expr, op string, rhs ast.Expr, k func() string) string {
+	if !c.trace {
+		fail("assignment to %s, a field of an abstract object (needs trace)", c.show(lhs))
+	}
+	val := c.traceArg(rhs)
+	if val == "\"_\"" {
+		val = fmt.Sprintf("%q", c.show(rhs))
+	}
+	c.opaqueVals = nil
+	return fmt.Sprintf("let tr := tr ++ [(%q, [%s])]\n", "set "+c.show(lhs)+op, val) + k()
+}
+
 func (c *fctx) assignCode(lhs ast.Expr, code string, k func() string) string {
 	switch l := lhs.(type) {
 	case *ast.Ident:
@@ -1640,11 +1909,27 @@ func (t *translator) translate(sp TrFunc) (fo *funcOut) {
 			return true
 		})
 	}
+	nilCompared := map[string]bool{}
+	ast.Inspect(fd.Body, func(n ast.Node) bool {
+		if be, ok := n.(*ast.BinaryExpr); ok && (be.Op == token.EQL || be.Op == token.NEQ) {
+			for _, pair := range [][2]ast.Expr{{be.X, be.Y}, {be.Y, be.X}} {
+				if id, ok := pair[1].(*ast.Ident); ok && id.Name == "nil" {
+					if v, ok := pair[0].(*ast.Ident); ok {
+						nilCompared[v.Name] = true
+					}
+				}
+			}
+		}
+		return true
+	})
 	for i := 0; i < sig.Params().Len(); i++ {
 		v := sig.Params().At(i)
 		lt := t.leanType(v.Type())
 		if lt == "" {
-			// unused or only passed to opaque calls: drop it
+			if nilCompared[v.Name()] && t.valType(v.Type()) == "AbsPtr" {
+				params = append(params, fmt.Sprintf("(%s : AbsPtr)", leanIdent(v.Name())))
+			}
+			// otherwise unused or only passed to opaque calls: drop it
 			continue
 		}
 		params = append(params, fmt.Sprintf("(%s : %s)", leanIdent(v.Name()), lt))
@@ -1709,6 +1994,7 @@ func (t *translator) translate(sp TrFunc) (fo *funcOut) {
 	} else if len(resTypes) > 1 {
 		rt = "(" + strings.Join(resTypes, " × ") + ")"
 	}
+	body = strings.ReplaceAll(body, "«rho»", rt)
 	fo.partial = c.partial
 	if c.partial {
 		rt = "(Option " + rt + ")"
